@@ -23,6 +23,7 @@ import time
 import traceback
 
 MAX_VIOL_PER_TASK = 8
+KNOWN_MATCH = None       # callable(signature) -> bool, set by the CLI: violations that match a listed known finding do not count towards the early stop
 MAX_SAMPLES_PER_TASK = 2
 
 
@@ -236,7 +237,12 @@ class _Agg:
                 self.nt_hashes.add(hh)
         elif r.get('nt'):
             self.nt_hashes.add(h64(case))
-        if v == 'viol':
+        if v == 'viol' and KNOWN_MATCH is not None and KNOWN_MATCH(r['sig']):
+            self.extra['known_finding_hits'] += 1
+            if not any(x.get('known') for x in self.viols):
+                self.viols.append({'space': space.name, 'case': case, 'task': getattr(self, 'task', None), 'signature': r['sig'],
+                                   'message': r['msg'], 'expected': r.get('expected'), 'observed': r.get('observed'), 'known': True})
+        elif v == 'viol':
             self.nviol += 1
             if len(self.viols) < MAX_VIOL_PER_TASK:
                 self.viols.append({'space': space.name, 'case': case, 'task': getattr(self, 'task', None), 'signature': r['sig'],
